@@ -177,7 +177,9 @@ CHECKS = {
        'including a message expunged elsewhere but not yet announced; set numbers, sizes and dates are symbolic integers; obligation per '
        '(program, message): returned <=> RFC 3501 6.4.4 semantics, proved by z3; no EXPUNGE in reply to non-UID SEARCH. Over the wire: '
        '25 flag/sequence-set/UID-set/size programs rendered as SEARCH and UID SEARCH command text with symbolic numbers, parsed by the '
-       'real command parser and executed (the UID variant changes how results are reported, not what the keys mean).',
+       'real command parser and executed (the UID variant changes how results are reported, not what the keys mean). BODY / TEXT over a '
+       'concrete vocabulary (a word in none / Subject / another header / body / both / a MIME part header / a MIME part text of two '
+       'messages; combination drawn by the engine): BODY tests the body only, TEXT header or body.',
   note=TRUST + 'Flag assignments are enumerated, operands are symbolic. Outside: BODY/TEXT/HEADER/address/subject and sent-date keys '
        '(email package), two top-level keys of the same family (told apart by hash(SearchKey)).',
   technique='symbolic execution of the real search code with z3 against RFC semantics as a z3 term'),
